@@ -324,7 +324,9 @@ def check(prop, tier, nproc=None, budget_s=None, only=None):
         assumptions=getattr(H, "ASSUMPTIONS", []),
         wall_s=round(wall, 2), violations=len(violations))
     os.makedirs(os.path.join(VERIF, "evidence"), exist_ok=True)
-    with open(os.path.join(VERIF, "evidence", "%s.json" % prop), "w") as f:
+    partial = bool(only) or witness_only or os.environ.get("WSX_WAITRESS_SRC")
+    # partial runs (--only) and runs against another tree never overwrite the evidence of record
+    with open(os.path.join(VERIF, "evidence", ("partial_%s.json" if partial else "%s.json") % prop), "w") as f:
         json.dump(ev, f, indent=1)
     # ------------------------------------------------------------ verdict
     for l in lines:
